@@ -399,6 +399,29 @@ theorem readFrame_write (p rest : Bytes) (hp : p.length < 2 ^ 31) :
   simp only [hl, if_false, hmk, GoResult.bind, hs]
   simp
 
+theorem readFramesAux_stream (ps : List Bytes) (rest : Bytes) (fuel : Nat)
+    (hps : ∀ p ∈ ps, p.length < 2 ^ 31) (hrest : ∀ p r, readFrame rest ≠ .ok (p, r)) (hf : ps.length < fuel) :
+    readFramesAux fuel (ps.flatMap writeFrame ++ rest) = (ps, rest) := by
+  induction ps generalizing fuel with
+  | nil =>
+    cases fuel with
+    | zero => simp at hf
+    | succ f =>
+      simp only [List.flatMap_nil, List.nil_append]
+      unfold readFramesAux
+      split
+      · rename_i p r h; exact absurd h (hrest p r)
+      · rfl
+  | cons p t ih =>
+    cases fuel with
+    | zero => simp at hf
+    | succ f =>
+      have hp : p.length < 2 ^ 31 := hps p (by simp)
+      simp only [List.flatMap_cons, List.append_assoc, readFramesAux]
+      rw [readFrame_write p (t.flatMap writeFrame ++ rest) hp]
+      simp only
+      rw [ih f (fun q hq => hps q (by simp [hq])) (by simp at hf; omega)]
+
 end KafVerif.ProtoHeader
 
 namespace KafVerif.C10
@@ -450,6 +473,16 @@ theorem readFrame_exact (s p rest : Bytes) (h : readFrame s = .ok (p, rest)) :
 /-- (4c) `ReadFrame ∘ WriteFrame` is the identity on payloads, and the following bytes stay in the stream. -/
 theorem readFrame_writeFrame (p rest : Bytes) (hp : p.length < 2 ^ 31) :
     readFrame (writeFrame p ++ rest) = .ok (p, rest) := readFrame_write p rest hp
+
+/-- (4d) Pipelining: reading frames one after the other from a stream that holds k encoded frames back to back
+(followed by anything that is not itself a complete frame, e.g. nothing) yields exactly those k payloads, in
+order, and leaves exactly the remainder — no byte of a later frame is consumed by an earlier read. -/
+theorem readFrames_stream (ps : List Bytes) (rest : Bytes) (fuel : Nat)
+    (hps : ∀ p ∈ ps, p.length < 2 ^ 31) (hrest : ∀ p r, readFrame rest ≠ .ok (p, r)) (hf : ps.length < fuel) :
+    readFramesAux fuel (ps.flatMap writeFrame ++ rest) = (ps, rest) :=
+  readFramesAux_stream ps rest fuel hps hrest hf
+
+example : readFrames ([0, 0, 0, 1, 7] ++ [0, 0, 0, 0] ++ [0, 0, 0, 2, 8, 9] ++ [0, 0]) = ([[7], [], [8, 9]], [0, 0]) := by decide
 
 /-- (5) Parsing is a function of the frame bytes alone (and of kmsg's fixed flexibility table): the model has no
 parser state, so whatever other connections parse before or at the same time, equal frames give equal results.
